@@ -2,7 +2,37 @@ package types
 
 import (
 	"math/big"
+
+	sdkmath "cosmossdk.io/math"
 )
+
+// c10PinnedFormula is the conversion formula of the pinned tree, kept only to delimit the listed finding
+// C10-lossless-ratio (see its use below).  It is NOT a specification.
+func c10PinnedFormula(input sdkmath.Int, ratio sdkmath.LegacyDec, inputScale, outputScale uint32) (sdkmath.Int, sdkmath.Int) {
+	inputDec := sdkmath.LegacyNewDecFromInt(input)
+	scaleFactor := int64(inputScale) - int64(outputScale)
+	var scaleMultipler, scaleReverseMultipler sdkmath.LegacyDec
+	if scaleFactor >= 0 {
+		scaleMultipler = sdkmath.LegacyNewDecWithPrec(1, scaleFactor)
+		scaleReverseMultipler = sdkmath.LegacyNewDecFromInt(sdkmath.NewIntWithDecimal(1, int(scaleFactor)))
+	} else {
+		scaleMultipler = sdkmath.LegacyNewDecFromInt(sdkmath.NewIntWithDecimal(1, int(-scaleFactor)))
+		scaleReverseMultipler = sdkmath.LegacyNewDecWithPrec(1, -scaleFactor)
+	}
+	outputDec := inputDec.Clone().Mul(scaleMultipler).Mul(ratio)
+	outputInt := outputDec.Clone().TruncateDec()
+	if !outputDec.Equal(outputInt) {
+		outputFrac := outputDec.Clone().Sub(outputInt)
+		inputFrac := outputFrac.Mul(scaleReverseMultipler)
+		input = inputDec.Sub(inputFrac).TruncateInt()
+	}
+	return input, outputInt.TruncateInt()
+}
+
+func c10SamePinned(offered sdkmath.Int, ratio sdkmath.LegacyDec, in, out uint32, burned, minted *big.Int) bool {
+	pb, pm := c10PinnedFormula(offered, ratio, in, out)
+	return pb.Equal(sdkmath.NewIntFromBigInt(burned)) && pm.Equal(sdkmath.NewIntFromBigInt(minted))
+}
 
 // C10 (fee-token swap arithmetic): LossLessSwap(offered, ratio, inScale, outScale) = (burned, minted)
 //
@@ -22,14 +52,15 @@ func VerifC10_LossLessSwap() {
 	out := scales[verifChoice("outScale", len(scales))]
 	zero, one := big.NewInt(0), big.NewInt(1)
 	e18 := verifPow10(18)
-	offered := verifIntIn("offered", zero, verifPow2(128))
+	amtW, ratioMax := verifPow2(128), verifMul(verifPow2(64), e18)
+	offered := verifIntIn("offered", zero, amtW)
 	ratioOne := verifChoice("ratioIsOne", 2) == 1
 	var ratioRaw *big.Int
 	if ratioOne {
 		ratioRaw = e18
 	} else {
 		ratioRaw = verifBig("ratio")
-		verifAssume(ratioRaw.Cmp(one) >= 0 && ratioRaw.Cmp(verifMul(verifPow2(64), e18)) <= 0)
+		verifAssume(ratioRaw.Cmp(one) >= 0 && ratioRaw.Cmp(ratioMax) <= 0)
 	}
 	ratio := verifDecFromRaw(ratioRaw)
 	var burned, minted *big.Int
@@ -43,10 +74,16 @@ func VerifC10_LossLessSwap() {
 	}
 	verifCover("converted")
 	pin, pout := verifPow10(int64(in)), verifPow10(int64(out))
-	verifAssertKnown(burned.Sign() >= 0 && minted.Sign() >= 0, "amounts are non-negative", "C10-lossless-ratio", !ratioOne)
+	verifAssertKnown(burned.Sign() >= 0 && minted.Sign() >= 0, "amounts are non-negative", "C10-lossless-ratio", !ratioOne && c10SamePinned(offered, ratio, in, out, burned, minted))
 	verifAssert(burned.Cmp(offered.BigInt()) <= 0, "A never burns more than was offered")
+	// Class of the listed finding C10-lossless-ratio: at a ratio other than 1 the result is the one the
+	// formula of the pinned tree gives (c10PinnedFormula below: the give-back of unconverted input ignores
+	// the ratio).  A result that violates B and differs from that is a different violation and is reported;
+	// a repaired formula satisfies B and needs no class at all.
+	pb, pm := c10PinnedFormula(offered, ratio, in, out)
+	samePinned := pb.Equal(sdkmath.NewIntFromBigInt(burned)) && pm.Equal(sdkmath.NewIntFromBigInt(minted))
 	verifAssertKnown(verifMul(minted, pin, e18).Cmp(verifMul(burned, ratioRaw, pout)) <= 0,
-		"B never mints more than the burned amount is worth", "C10-lossless-ratio", !ratioOne)
+		"B never mints more than the burned amount is worth", "C10-lossless-ratio", !ratioOne && samePinned)
 	if ratioOne {
 		verifAssert(verifMul(burned, pout).Cmp(verifMul(minted, pin)) == 0, "C exact at ratio 1")
 		dust := big.NewInt(1)
